@@ -232,6 +232,8 @@ func checkC07(c *Ctx, r *Report) {
 	addressabilityRule(c, r)
 	typeAgreementRule(c, r)
 	noGrowByResliceRule(c, r, be)
+	valueErrorPairRule(c, r)
+	paramKindContractRule(c, r)
 }
 
 // noGrowByResliceRule (R07k): a node's list ([]value) never grows by re-slicing into its spare
@@ -1246,3 +1248,187 @@ func kindAllowsIsNil(recv ssa.Value, at ssa.Instruction, nilable map[int64]bool)
 }
 
 var _ = sort.Strings
+
+// valueErrorPairRule (R07n): the evaluators of dynamic values hand out a value or an error, never neither.
+// cfgDynamic.withValue (and every other consumer) calls methods on the value whenever the error is nil; a
+// (nil, nil) answer — an empty resolver result taken for "not found", say — is a nil-interface call far away
+// from its cause. Checked for the implementations of dynValue.getValue, cfgDynamic.getValue (and the function
+// literal it hands to the cache), parseValue and valueCache.cachedValue: on every return the value is known
+// non-nil, or the error is known non-nil, or both results are those of one call of a member of this set, or the
+// return stands under `v != nil || pred(err)` with pred true only for a non-nil argument.
+func valueErrorPairRule(c *Ctx, r *Report) {
+	r.Rule("R07n", "the evaluators of dynamic values (getValue implementations, parseValue, the per-call cache) never return a nil value together with a nil error", 5)
+	set := map[*ssa.Function]bool{}
+	add := func(f *ssa.Function) {
+		if f != nil && f.Blocks != nil {
+			set[f] = true
+		}
+	}
+	if it, ok := c.Named("", "dynValue").Underlying().(*types.Interface); ok {
+		for _, t := range c.Implementations("", it) {
+			add(c.MethodImpl(t, "getValue"))
+		}
+	}
+	dynGet := c.Method("", "cfgDynamic", "getValue")
+	add(dynGet)
+	for _, a := range dynGet.AnonFuncs {
+		add(a)
+	}
+	add(c.Func("", "parseValue"))
+	cached := c.Method("", "valueCache", "cachedValue")
+	add(cached)
+	inSet := func(call *ssa.Call) bool {
+		if call == nil {
+			return false
+		}
+		if call.Call.IsInvoke() {
+			return call.Call.Method.Name() == "getValue"
+		}
+		for _, g := range c.Callees(call) {
+			if !set[g] {
+				return false
+			}
+		}
+		if len(c.Callees(call)) == 0 {
+			// the function parameter of cachedValue: its arguments are checked where they are made (AnonFuncs above)
+			if p, ok := call.Call.Value.(*ssa.Parameter); ok && p.Parent() == cached {
+				return true
+			}
+			return false
+		}
+		return true
+	}
+	// pred(x) is true only for x != nil
+	nonNilPred := func(g *ssa.Function) bool {
+		if g == nil || g.Blocks == nil || len(g.Params) != 1 {
+			return false
+		}
+		for _, ret := range Returns(g) {
+			if b, ok := ConstBool(RetVal(ret, 0)); ok && !b {
+				continue
+			}
+			if nilness(g.Params[0], ret.Block(), 0) != 1 {
+				return false
+			}
+		}
+		return true
+	}
+	var pairOK func(v, e ssa.Value, at *ssa.BasicBlock, extra []Cond, d int) (bool, string)
+	pairOK = func(v, e ssa.Value, at *ssa.BasicBlock, extra []Cond, d int) (bool, string) {
+		if d > 6 {
+			return false, "too deep"
+		}
+		if nilness(e, at, 0, extra...) == 1 {
+			return true, "the error is not nil"
+		}
+		if nilness(v, at, 0, extra...) == 1 {
+			return true, "the value is not nil"
+		}
+		// both results of one call of a member
+		if ev, ok := v.(*ssa.Extract); ok {
+			if ee, ok := e.(*ssa.Extract); ok && ee.Tuple == ev.Tuple {
+				if call, ok := ev.Tuple.(*ssa.Call); ok && inSet(call) {
+					return true, "both results of one evaluator call"
+				}
+			}
+		}
+		// merged pairs: φ(v1, v2), φ(e1, e2) of one block — pair by pair
+		if pv, ok := v.(*ssa.Phi); ok {
+			if pe, ok := e.(*ssa.Phi); ok && pe.Block() == pv.Block() {
+				for i := range pv.Edges {
+					var ec []Cond
+					q := pv.Block().Preds[i]
+					if ifi, ok := lastInstr(q).(*ssa.If); ok && q.Succs[0] != q.Succs[1] {
+						ec = append(ec, Cond{ifi.Cond, q.Succs[0] == pv.Block(), ifi})
+					}
+					if pv.Edges[i] == ssa.Value(pv) && pe.Edges[i] == ssa.Value(pe) {
+						continue
+					}
+					if ok, why := pairOK(pv.Edges[i], pe.Edges[i], q, ec, d+1); !ok {
+						return false, "on the way in from block " + itoa(int64(q.Index)) + ": " + why
+					}
+				}
+				return true, "every merged pair is a value or an error"
+			}
+		}
+		// under `v != nil || pred(e)`
+		for _, cd := range append(DomConds(at), extra...) {
+			phi, ok := cd.V.(*ssa.Phi)
+			if !ok || !cd.Truth {
+				continue
+			}
+			all := true
+			for i, ev := range phi.Edges {
+				q := phi.Block().Preds[i]
+				if b, isC := ConstBool(ev); isC {
+					if !b {
+						continue // this way in makes the condition false: not taken
+					}
+					var ec []Cond
+					if ifi, ok := lastInstr(q).(*ssa.If); ok && q.Succs[0] != q.Succs[1] {
+						ec = append(ec, Cond{ifi.Cond, q.Succs[0] == phi.Block(), ifi})
+					}
+					if nilness(v, q, 0, ec...) != 1 && nilness(e, q, 0, ec...) != 1 {
+						all = false
+					}
+					continue
+				}
+				if call, ok := ev.(*ssa.Call); ok && len(call.Call.Args) == 1 && call.Call.Args[0] == e && nonNilPred(call.Call.StaticCallee()) {
+					continue
+				}
+				all = false
+			}
+			if all {
+				return true, "under a test that holds only for a non-nil value or a non-nil error"
+			}
+		}
+		// a return reached from several tests (`if v != nil || pred(err) { return v, err }`): way by way
+		if len(at.Preds) > 1 && d == 0 {
+			all := true
+			for _, q := range at.Preds {
+				ifi, ok := lastInstr(q).(*ssa.If)
+				if !ok || q.Succs[0] == q.Succs[1] {
+					all = false
+					break
+				}
+				ec := []Cond{{ifi.Cond, q.Succs[0] == at, ifi}}
+				if nilness(v, q, 0, ec...) == 1 || nilness(e, q, 0, ec...) == 1 {
+					continue
+				}
+				if call, ok := ifi.Cond.(*ssa.Call); ok && q.Succs[0] == at && len(call.Call.Args) == 1 && (call.Call.Args[0] == e || SameValue(call.Call.Args[0], e)) && nonNilPred(call.Call.StaticCallee()) {
+					continue
+				}
+				all = false
+			}
+			if all {
+				return true, "every test that leads here holds only for a non-nil value or a non-nil error"
+			}
+		}
+		return false, "neither the value nor the error is known to be non-nil here"
+	}
+	var fns []*ssa.Function
+	for f := range set {
+		fns = append(fns, f)
+	}
+	sort.Slice(fns, func(i, j int) bool { return c.FnName(fns[i]) < c.FnName(fns[j]) })
+	for _, fn := range fns {
+		name := c.FnName(fn)
+		for _, ret := range Returns(fn) {
+			if len(ret.Results) != 2 {
+				continue
+			}
+			ok, why := pairOK(RetVal(ret, 0), RetVal(ret, 1), ret.Block(), nil, 0)
+			if !ok && fn == cached {
+				// the cached pair: what the cache holds was stored by this very function under `v != nil && v.canCache()` (R08e
+				// decides that guard exactly), so a cached entry without error has a value
+				if l, isL := RetVal(ret, 0).(*ssa.UnOp); isL && l.Op == token.MUL {
+					if _, f, isF := FieldOf(l.X); isF && f == "value" {
+						r.Except("R07n", name, "value or error", c.Pos(ret.Pos()), "a cache hit without error returns the cached value, and entries are stored only for a non-nil value (the guard decided by R08e)")
+						continue
+					}
+				}
+			}
+			r.Check(ok, "R07n", name, "value or error", c.Pos(ret.Pos()), why, "this evaluator can return a nil value together with a nil error ("+why+"): cfgDynamic.withValue and the other consumers call methods on the value whenever the error is nil — a nil pointer dereference for a resolver that answers with an empty string, say")
+		}
+	}
+}
